@@ -116,6 +116,9 @@ int main( int argc, char ** argv ) {
                             fprintf( g_out, "%d", r->StepFileId() );
                         }
                     }
+                    // the same attribute asked for by its descriptor (what the generated accessors do): must be the very holder of the map entry
+                    const iAstruct viaDesc = inst->getInvAttr( ia );
+                    fprintf( g_out, " via=%d", ( declAggr ? ( ( void * ) viaDesc.a == ( void * ) it->second.a ) : ( ( void * ) viaDesc.i == ( void * ) it->second.i ) ) ? 1 : 0 );
                     fputc( '\n', g_out );
                 }
             }
